@@ -125,6 +125,8 @@ def gen_options(r, kind="c11"):
             opts[f] = (r.random() < 0.75) if f != "DO_BALANCED_CC" else (r.random() < 0.5)
     if r.random() < 0.2:
         opts["DT_CONT"] = float(r.choice([0, 5, 10]))
+    if r.random() < 0.15:
+        opts["REFRIGERANTS"] = r.choice(["water,ammonia", "R134a", "propane,water"])
     return opts or None
 
 
